@@ -26,13 +26,17 @@ ASSUMPTIONS = [
 RULE = ('seeded random histories over one self-referencing entity: 0-3 committed objects, 1-4 session operations (modify, create with/without '
         'a reference to an existing or new object, delete, re-point a reference), 0-4 table-driven hook bodies (modify self/other/new objects, '
         'create objects with or without a principal) keyed by (before/after, kind, object, nth call), trigger = flush() or obj.flush(); plus a '
-        'fixed corpus; non-trivial = at least one statement was executed; distinct = distinct canonical case JSON')
+        'fixed corpus (incl. obj.flush() on the leaf of chains of two and three new principals); non-trivial = at least one statement was executed; distinct = distinct canonical case JSON')
 
 KINDS = {'I': 'KIns', 'U': 'KUpd', 'D': 'KDel'}
 STATUS = {'loaded': 'SLoaded', 'created': 'SCreated', 'modified': 'SModified', 'marked_to_delete': 'SMarked', 'inserted': 'SInserted',
           'updated': 'SUpdated', 'deleted': 'SDeleted', 'cancelled': 'SCancelled'}
 
 CORPUS = [
+    # obj.flush() on the leaf of a chain of NEW objects (Line -> Order -> Customer), with a hook on the root that edits it
+    {'init': [], 'ops': [['create', None], ['create', 0], ['create', 1]], 'hooks': [[True, 'I', 0, 0, [['modify', 0]]]], 'trigger': ['obj_flush', 2]},
+    {'init': [], 'ops': [['create', None], ['create', 0], ['create', 1], ['create', 2]], 'hooks': [[True, 'I', 0, 0, [['modify', 0], ['modify', 1]]], [True, 'I', 1, 0, [['modify', 1]]]], 'trigger': ['obj_flush', 3]},
+    {'init': [None], 'ops': [['create', None], ['create', 1], ['set_ref', 0, 2]], 'hooks': [[True, 'I', 1, 0, [['modify', 1]]], [False, 'I', 1, 1, [['modify', 1]]]], 'trigger': ['obj_flush', 0]},
     # the recorded defect: S created with a created principal G; S.flush()
     {'init': [], 'ops': [['create', None], ['create', 0]], 'hooks': [], 'trigger': ['obj_flush', 1]},
     {'init': [], 'ops': [['create', None], ['create', 0]], 'hooks': [], 'trigger': ['flush']},
@@ -60,7 +64,8 @@ def gen_case(rng):
         live = [o for o in range(n) if o not in dead]
         choice = rng.random()
         if choice < 0.35 or not live:
-            ref = rng.choice(live) if live and rng.random() < 0.6 else None
+            created = [o for o in live if status.get(o) == 'created']
+            ref = (created[-1] if created and rng.random() < 0.5 else rng.choice(live)) if live and rng.random() < 0.7 else None
             ops.append(['create', ref]); status[n] = 'created'
             if ref is not None: referred.add(ref)
             n += 1
@@ -92,7 +97,8 @@ def gen_case(rng):
             else: acts.append(['create', rng.choice(never_dead) if never_dead and rng.random() < 0.5 else None])
         hooks.append([before, kind, o, nth, acts])
     pend = [o for o in range(n) if o not in dead]
-    trigger = ['flush'] if rng.random() < 0.65 or not pend else ['obj_flush', rng.choice(pend)]
+    newest = [o for o in pend if status.get(o) == 'created']
+    trigger = ['flush'] if rng.random() < 0.6 or not pend else ['obj_flush', newest[-1] if newest and rng.random() < 0.6 else rng.choice(pend)]
     return {'init': init, 'ops': ops, 'hooks': hooks, 'trigger': trigger}
 
 
